@@ -115,6 +115,9 @@ fn diff_field(a: &Expect, b: &Expect) -> String {
     diff(a, b).split(':').next().unwrap_or("?").to_string()
 }
 
+/// flag in `Case::prev`: the previous header carries the CIF source format (otherwise no format)
+const PREV_IS_CIF: u32 = 1 << 31;
+
 fn make_prev(options: u32, format_none: bool) -> hv::Picture {
     hv::Picture {
         version: None,
@@ -171,18 +174,18 @@ fn check_case(rep: &Report, c: &Case) {
     let start = w.nbits;
     match &c.h {
         H::S(h) => h.put(&mut w),
-        H::Std(h) => h.put(&mut w, c.scal, c.prev.unwrap_or(0)),
+        H::Std(h) => h.put(&mut w, c.scal, c.prev.unwrap_or(0) & !PREV_IS_CIF),
     }
     let hdr_bits = w.nbits - start;
     w.put(SENTINEL, 32);
     w.put(0, 16);
     let verdict = match &c.h {
         H::S(h) => h.expect(),
-        H::Std(h) => h.expect(c.scal, c.prev.map(|o| (o, None))),
+        H::Std(h) => h.expect(c.scal, c.prev.map(|o| (o & !PREV_IS_CIF, if o & PREV_IS_CIF != 0 { Some(Fmt::Cif) } else { None }))),
     };
     let realign = (8 - c.phase % 8) % 8;
     let replay = json!({"kind": "header", "bits": hex(&w.bytes), "phase": c.phase, "stuffing": c.stuff, "sorenson": sorenson, "scalability": c.scal, "previous_options": c.prev, "header_bits": hdr_bits, "label": c.label});
-    let prev = c.prev.map(|o| make_prev(o, true));
+    let prev = c.prev.map(|o| make_prev(o & !PREV_IS_CIF, o & PREV_IS_CIF == 0));
     let opts = options(sorenson, c.scal);
     let bytes = w.bytes.clone();
     let r = catch(|| {
@@ -599,6 +602,29 @@ pub fn run(tier: Tier) -> Report {
             cases.push(Case { h: H::Std(h), scal: subset % 5 == 0, prev: Some(o | extra), phase: 0, stuff: 0, label: "inheritance" });
         }
     }
+    // a plain-PTYPE header (CIF) after a header of the same format that had OPPTYPE-group options
+    // switched on: every single option, all of them, and a few mixtures; PTYPE's own option bits in
+    // every combination. Nothing is inherited by a header without PLUSPTYPE: it reports what its
+    // own bits say, and no field of the other header kind is read.
+    {
+        let all10 = [O_UMV, O_SAC, O_AP, O_AIC, O_DF, O_SS, O_RPS, O_ISD, O_AIV, O_MQ];
+        let mut prevs: Vec<u32> = all10.to_vec();
+        prevs.push(all10.iter().fold(0, |a, b| a | b));
+        prevs.extend([0, O_RPS | O_SS, O_UMV | O_AP | O_MQ, O_RPS | O_RTYPE | O_RPR, O_SPLIT | O_DOC | O_FREEZE]);
+        for &o in &prevs {
+            for bits in 0..16u8 {
+                for inter in [false, true] {
+                    let mut b = StdHdr::baseline(3, inter, 0x21 ^ bits, 1 + bits * 2);
+                    b.umv = bits & 1 != 0;
+                    b.sac = bits & 2 != 0;
+                    b.ap = bits & 4 != 0;
+                    b.split = bits & 8 != 0;
+                    b.pei = if bits % 3 == 0 { vec![0x5A] } else { vec![] };
+                    cases.push(Case { h: H::Std(b), scal: false, prev: Some(o | PREV_IS_CIF), phase: (bits % 8) as u32, stuff: 0, label: "plain-header-after-options" });
+                }
+            }
+        }
+    }
     // full cross of reduced domains (2-3 values per field) on the rich header
     {
         let red: Vec<(usize, Vec<usize>)> = pf.iter().enumerate().filter(|(_, f)| ["UFEP", "custom PCF", "OPPTYPE source format", "MPPTYPE type", "CPM/PSBI", "PAR", "UUI", "BCI", "TRPI/TRP", "PEI count"].contains(&f.name)).map(|(i, f)| (i, f.boundary.iter().take(3).copied().collect())).collect();
@@ -857,7 +883,7 @@ pub fn run(tier: Tier) -> Report {
         rep.extra("size_change_graph", json!({"states": ex.nodes.len(), "transitions": ex.transitions, "fixpoint": ex.fixpoint, "max_depth": ex.max_depth}));
     }
     rep.set_rule(
-        "header descriptions -> bits (independent writer) -> parser::decode_picture, compared field by field with the description, followed by a 32-bit sentinel that must be the next thing read; every header is also parsed through H263State::parse_picture(.., None) on a fresh decoder and on one with a decoded picture, which must agree with the direct parse: Sorenson: every version, TR, size code, all 256x256 8-bit sizes, all 16-bit widths/heights at 3 fixed partners, type x deblock x quantizer, PEI bytes; H.263: each field of PTYPE / PLUSPTYPE (UFEP, OPPTYPE incl. all 2^10 mode patterns, MPPTYPE, CPM, CPFMT incl. all 512x512 indications and all EPAR, CPCFC/ETR, UUI, SSS, ELNUM/RLNUM, RPSMF, TRPI/TRP, BCI, TRB/DBQUANT, PEI) over its whole range on three base headers, all field pairs over boundary sets, a full cross of reduced domains, inheritance from every subset of OPPTYPE options, all 8 bit phases x stuffing lengths; non-trivial = H.263 headers",
+        "header descriptions -> bits (independent writer) -> parser::decode_picture, compared field by field with the description, followed by a 32-bit sentinel that must be the next thing read; every header is also parsed through H263State::parse_picture(.., None) on a fresh decoder and on one with a decoded picture, which must agree with the direct parse: Sorenson: every version, TR, size code, all 256x256 8-bit sizes, all 16-bit widths/heights at 3 fixed partners, type x deblock x quantizer, PEI bytes; H.263: each field of PTYPE / PLUSPTYPE (UFEP, OPPTYPE incl. all 2^10 mode patterns, MPPTYPE, CPM, CPFMT incl. all 512x512 indications and all EPAR, CPCFC/ETR, UUI, SSS, ELNUM/RLNUM, RPSMF, TRPI/TRP, BCI, TRB/DBQUANT, PEI) over its whole range on three base headers, all field pairs over boundary sets, a full cross of reduced domains, inheritance from every subset of OPPTYPE options, plain-PTYPE headers after a header with OPPTYPE-group options switched on (nothing may be inherited), all 8 bit phases x stuffing lengths; non-trivial = H.263 headers",
     );
     rep.sample(json!({"kind": "plusptype-rich", "fields": format!("{:?}", rich_base())}));
     rep.sample(json!({"kind": "sorenson", "fields": "version 1, TR 200, 16-bit size 320x200, disposable, deblocking on, q 31, PEI [1,2] at bit phase 5 with 3 stuffing bits"}));
